@@ -278,7 +278,7 @@ AllLawClasses == {"MassAction", "Arrhenius", "Eyring", "EyringHS", "Radiolytic",
     "RampedTemp", "SinTemp", "Log10Wrap", "ExpWrap", "MassActionEq", "EqEquation", "GibbsEqConst",
     "ArrheniusParam", "EyringParam", "ArrheniusFromK", "ArrheniusAsRate", "EyringAsRate",
     "FitArrhenius", "FitEyring", "LeastSquares"}
-AllModes == {"math", "numpy", "nparray", "sympy", "units"}    \* nparray: array-valued variables (two lanes)
+AllModes == {"math", "numpy", "nparray", "sympy", "units", "units-scaled"}    \* nparray: array-valued variables (two lanes)
 AllPatterns == {"none", "first", "all", "absent", "second", "keys-only"}
 
 (* arguments in order; the polynomial classes take Orders coefficients (after the shift) *)
@@ -318,7 +318,7 @@ UnitClasses == {"MassAction", "Arrhenius", "Eyring", "EyringHS", "Radiolytic", "
 (* evaluated with array-valued variables too                                                    *)
 ArrayClasses == RateClasses \cup {"Radiolytic", "RadiolyticAB", "RampedTemp", "SinTemp", "EqEquation"}
 ModesOf(c) == IF c \in {"FitArrhenius", "FitEyring", "LeastSquares"} THEN {"numpy"}
-              ELSE (AllModes \ (IF c \in UnitClasses THEN {} ELSE {"units"}))
+              ELSE (AllModes \ (IF c \in UnitClasses THEN {} ELSE {"units", "units-scaled"}))
                             \ (IF c \in ArrayClasses THEN {} ELSE {"nparray"})
 (* array lanes: in mode nparray every variable in LaneVars is an array <<v * f : f in LaneFactors>> *)
 LaneVars == {"X", "Y", "density", "doserate", "doserate_alpha", "doserate_beta", "time"}
@@ -444,6 +444,17 @@ UnitOf(c, name, k) ==
       [] name = "dTdt" -> "K/s"
       [] name = "time" -> "s"
       [] OTHER -> ""
+(* mode "units-scaled": the same physical value handed over in a scaled / non-SI-coherent unit *)
+(* (thermochemical calories, millimolar, milliseconds); f = size of the unit in coherent units, *)
+(* exact.  The expected terms do not change: a quantity denotes its value whatever its unit.    *)
+AltUnit(u) ==
+    CASE u = "J/mol"   -> [u |-> "kcal/mol", f |-> <<4184, 1>>]
+      [] u = "J/K/mol" -> [u |-> "cal/K/mol", f |-> <<523, 125>>]
+      [] u = "M"       -> [u |-> "mM", f |-> <<1, 1000>>]
+      [] u = "s"       -> [u |-> "ms", f |-> <<1, 1000>>]
+      [] u = "K/s"     -> [u |-> "K/ms", f |-> <<1000, 1>>]
+      [] OTHER         -> [u |-> u, f |-> <<1, 1>>]
+UnitGiven(c, name, k, mode) == IF mode = "units-scaled" THEN AltUnit(UnitOf(c, name, k)) ELSE [u |-> UnitOf(c, name, k), f |-> <<1, 1>>]
 ResultUnits(c, k) ==
     CASE c \in {"MassAction", "Arrhenius", "Eyring", "EyringHS", "ArrheniusAsRate", "EyringAsRate",
                 "Radiolytic", "RadiolyticAB"} -> <<"M/s">>
@@ -476,7 +487,7 @@ ChooseTemp(t) ==
 Evaluate(m) ==
     /\ part = "laws" /\ stage = "mode" /\ m \in ModesOf(cfg.cls)
     \* a defaulted standard state is a quantity (1 molar): only meaningful with units
-    /\ (cfg.pset.ngiven < Len(LawArgs(cfg.cls, cfg.order)) => m = "units")
+    /\ (cfg.pset.ngiven < Len(LawArgs(cfg.cls, cfg.order)) => m \in {"units", "units-scaled"})
     /\ cfg' = [cls |-> cfg.cls, order |-> cfg.order, pattern |-> cfg.pattern, pset |-> cfg.pset,
                temp |-> cfg.temp, mode |-> m]
     /\ stage' = "hist" /\ stack' = <<>> /\ UNCHANGED <<part, out>>
@@ -599,7 +610,9 @@ CaseRec ==
                    hist |-> Whos, lane_vars |-> (IF cfg.mode = "nparray" THEN LaneVars \cap DOMAIN Store ELSE {}),
                    lane_factors |-> [l \in 1..NLanes |-> LaneFactors[l]], companion_k |-> CompanionK,
                    units |-> [nm \in Range(LawArgs(cfg.cls, cfg.order)) \cup DOMAIN cfg.pset.env \cup {"T"} |->
-                                UnitOf(cfg.cls, nm, cfg.order)],
+                                UnitGiven(cfg.cls, nm, cfg.order, cfg.mode).u],
+                   unit_factors |-> [nm \in Range(LawArgs(cfg.cls, cfg.order)) \cup DOMAIN cfg.pset.env \cup {"T"} |->
+                                UnitGiven(cfg.cls, nm, cfg.order, cfg.mode).f],
                    data_x |-> xs, data_y |-> FitData(cfg.cls, EffTerms, xs)],
           cls |-> cfg.cls \o "-o" \o ToString(cfg.order) \o "-" \o cfg.pattern \o "-" \o cfg.mode
                   \o "-h" \o ToString(Len(stack)) \o stack[Len(stack)].who,
